@@ -298,7 +298,7 @@ def st_case(draw, max_tokens=12):
         x = draw(st.sampled_from(sorted(others)))
         G2 = gk.Grammar(g["prods"], x, set(g["terms"]))
         probe = {"sym": x, "inputs": draw(st_inputs(G2, g, 2, max_tokens=max_tokens))}
-    return {"g": g, "probe": probe, "pool": draw(st.integers(0, 3)), "perm": draw(st.permutations(list(range(6)))),
+    return {"g": g, "probe": probe, "pool": draw(st.integers(0, 4)), "perm": draw(st.permutations(list(range(6)))),
             "syn": draw(st.booleans()), "kw": kw, "explicit_start": draw(st.booleans()), "inputs": inputs,
             "decl": draw(st.sampled_from([None, "bottomup", "shuffle"]).flatmap(
                 lambda d: st.lists(st.integers(0, 9), min_size=6, max_size=6) if d == "shuffle" else st.just(d)))}
